@@ -63,7 +63,7 @@ def qcell_ok(toks, dmin=Fr(1, 50)):
 def rand_edge(rng):
     r = rng.random()
     if r < 0.15:
-        return Fr(rng.randint(8, 80), 8)           # 1 .. 10
+        return Fr(rng.randint(9, 80), 8)           # 1 .. 10 (a = 1 exactly means "not a crystal")
     if r < 0.8:
         return Fr(rng.randint(80, 1600), 8)        # 10 .. 200
     if r < 0.97:
